@@ -66,6 +66,11 @@ CHECKS = {
    note='Reply texts differ by recipient position parity so grouping is observable; the CRLF in front of a MIME boundary belongs to the boundary.',
    technique='stateless deviation-bounded model checking of the real queue with a reference bounce-grouping oracle',
    design='5/C13'),
+ 'C14': dict(level='fault_enumeration', engine='E1-vloop',
+   text='Virtual time, so each stall is one deterministic execution with an exact deadline.  Server: the real SmtpEdge.handle (command_timeout 11, data_timeout 17) against 4 client sessions (plain, STARTTLS, immediate TLS, AUTH LOGIN) stalled at every stall point -- before any byte, after each command, at (almost) every byte offset inside a line, inside DATA, after end-of-data, at the TLS handshake, at each AUTH challenge -- silent or trickling one byte every 0.9 x timeout; the handler must have sent 421 and returned exactly at the command/data deadline.  Relay: real StaticSmtpRelay/StaticLmtpRelay (timeouts 7/11/13) against a scripted peer stalling or trickling at every stage incl. connect, TLS handshake, AUTH 334, per-recipient LMTP replies, PIPELINING on/off; attempt must end with a transient failure within the scope.  Pipe and HTTP relays: subprocess/origin never answers or stalls mid-headers.',
+   note='gevent.Timeout runs on the virtual loop; fake TLS whose handshake blocks until the peer says hello.',
+   technique='exhaustive stall-point enumeration on a virtual clock with exact-deadline oracle',
+   design='5/C14'),
  'C15': dict(level='model_checking', engine='E1-vloop',
    text='BFS over histories of mutating storage operations on two 3-recipient messages (write, set_timestamp x2 values, increment_attempts, set_recipients_delivered once per message with 4 index lists, remove; depth 4 after the writes in quick, 5 in thorough) executed on each real backend (dict, disk on in-memory FS with 64-byte chunks, redis on fake client, cloud on fake object store); a state is the history replayed on a fresh backend, merged on the content of a dict-based reference store; after every operation the backend is observed completely (get of both ids, load, get of removed ids) and compared with the reference.  Thorough adds every pair of operations on different ids overlapping in time (disk: each aio completion an event; redis/cloud: each command), interleavings with <= 3 deviations, compared with the sequential run.',
    note='Fake redis/object store; ids compared after ASCII decoding; get of a removed id may raise any exception; single marking round per message (multi-round is C03).',
